@@ -86,6 +86,7 @@ class VLock(object):
 class Session(object):
     def __init__(self, ch, cfg, twin='sync', default_timeout=None, banner=b'verif', explore_io=False, **envkw):
         envkw_lock = envkw.pop('lock_factory', None)
+        envkw_loop = envkw.pop('share_loop', None)
         self.env = simenv.Env(ch, cfg, **envkw)
         self.twin = twin
         self.ch = ch
@@ -101,7 +102,8 @@ class Session(object):
             self.dev = ad.AdbDevice(self.transport, default_transport_timeout_s=default_timeout, banner=banner)
             self.loop = None
         else:
-            self.loop = vloop.VLoop(self.env.clock, ch, explore_io=explore_io)
+            self.loop = envkw_loop or vloop.VLoop(self.env.clock, ch, explore_io=explore_io)
+            self.owns_loop = envkw_loop is None
             self.transport = simenv.make_async_transport(self.env)
             self.dev = ada.AdbDeviceAsync(self.transport, default_transport_timeout_s=default_timeout, banner=banner)
             if explore_io:
@@ -123,7 +125,7 @@ class Session(object):
                     self.loop.run1(g.aclose())
             except BaseException:  # pylint: disable=broad-except
                 pass
-        if self.loop is not None:
+        if self.loop is not None and getattr(self, 'owns_loop', True):
             self.loop.shutdown()
 
     # ------------------------------------------------------------------ running one operation
@@ -182,6 +184,21 @@ class Session(object):
                     self.gens.append(g)
                     return await g.__anext__()
             return self.run(start)
+        if name == 'gen-create':
+            # only create the generator object (a stream is not opened before the first item is requested)
+            self.lazy = self.dev.streaming_shell(args[0], **kw)
+            return ('ok', None)
+        if name == 'gen-drain':
+            g = getattr(self, 'lazy', None)
+            if g is None:
+                return ('ok', 'no-generator')
+            self.lazy = None
+            if sync:
+                return self.run(lambda d: list(g))
+
+            async def drain(d):
+                return [x async for x in g]
+            return self.run(drain)
         if name == 'gen-rest':
             g = self.gens[args[0]]
             if sync:
@@ -262,6 +279,7 @@ class Session(object):
                     f.write(b'STALE-CONTENT-' * 8)
             r = self.run(lambda d: d.pull(device_path, path, **kw))
             self.pulled = open(path, 'rb').read() if os.path.exists(path) else None
+            self.pull_file_state = ('stale' if self.pulled == b'STALE-CONTENT-' * 8 else 'changed') if self.pulled is not None else 'absent'
             if os.path.exists(path):
                 os.unlink(path)
         if r[0] == 'ok':
